@@ -5,6 +5,18 @@ checks = {
  "C02": dict(level="exploration", technique="bounded exhaustive enumeration of typed strings x modes x meta settings x delivery on the real Readline loop (session engine over a pty)",
    text="Every string up to the stated length over a 16-rune alphabet covering ASCII, Latin-1, BMP, CJK wide, combining and astral runes is typed into the real Readline loop in emacs and vi-insert mode under three meta settings and two deliveries; the returned line must equal the typed text and every intermediate buffer must be a prefix of it. Exhaustive within the bound; nothing is sampled.",
    note="Trusts the harness pty/gate (keys are delivered exactly as planned) and scopes non-ASCII to convert-meta off (Latin-1 to output-meta on) as the statement does.", ref="7 C02"),
+ "C01": dict(level="model_checking", technique="explicit-state BFS over the real Readline loop (reflective canonical state hash, replay-validated successors) + exhaustive fault-answer enumeration (EOF/EIO once/for ever) at every seed state",
+   text="Breadth-first search from ~90 seed states (buffers x cursor x pending argument x emacs/vi-insert/vi-command/visual/operator-pending/isearch/non-incremental search/menu-select/macro recording/argument waits) over an alphabet derived from the configuration under test (every bound sequence of the main and local keymaps, every one of the 209 registered commands through a generated inputrc, data keys, unbound bytes), under 20 configuration variants, plus every registered command from every small planted (buffer, cursor) state, plus the four stdin fault answers in every seed state. Oracle: no panic, no fatal error, no hang, returns within 1000 reads on persistent EOF/error.",
+   note="States are de-duplicated by a reflective dump of *Shell + emulator screen + termios; depth bounds and frontier caps are reported in the evidence; hangs use a 30 s no-progress watchdog only as backstop and are re-run 4 times before being reported.", ref="7 C01"),
+ "C06": dict(level="model_checking", technique="explicit-state BFS over the real Readline loop with invariants evaluated at every wait through the public API; product of reached states x movement/copy commands x numeric arguments",
+   text="The C01 search with the all-commands alphabet in emacs, vi-insert and vi-command, evaluating at every wait: 0 <= Cursor.Pos() <= len(Line()), on a character in vi command mode, active selection inside the buffer, returned line == buffer; and for 43 movement/copy commands (with argument keys) and vi-yank-to x 16 motions from every reached state incl. numeric-argument states: buffer text unchanged.",
+   note="Cursor/selection getters are called on struct copies; movement clause judged outside minibuffers and only in the default configuration.", ref="7 C06"),
+ "C08": dict(level="exploration", technique="full bounded product (text x prior contents x sources x history-size x accept variant x mode) on the real Readline loop against a per-source reference model",
+   text="Every combination of 6 texts, 5 prior contents, 4 source configurations (default, harness, two harness, file+harness), 5 history-size settings, 8 accept variants and 2 modes is run through the real loop; contents of every source (and the Write-call log of harness sources) are compared with the reference model after every call. Multi-source cases are repeated 8/16 times.",
+   note="history-size 0 accepts both outcomes; map order covered by repetition.", ref="7 C08"),
+ "C16": dict(level="exploration", technique="bounded exhaustive product (all buffers <= L over 7 symbols x cursor x kill command x numeric argument, kill pairs, regions, vi x+P) on the real loop with a kill/yank law oracle",
+   text="Every buffer up to length L over {a b space . \" newline é}, every cursor position, each of 10 kill commands by name with and without numeric argument 2, kill-region for every mark position, every ordered pair of kills, and vi x (count 1-3) + P: the removed text must be the kill buffer, yank must insert exactly it and restore the buffer.",
+   note="State planted through a registered command using only Line().Set/Cursor().Set; vi line-wise registers not judged.", ref="7 C16"),
  "C10": dict(level="fault_enumeration", engine="pure", technique="exhaustive crash-point enumeration: every byte offset of an append truncated on a real file, reopen, append, reopen, against a list reference model",
    text="All write histories up to the stated length over a 15-line alphabet (quotes, newlines, controls, multi-byte, U+2028, >64 KiB, blank, duplicates, JSON look-alikes) are written through the real file-backed history; the file is reopened and compared with the reference list; then every byte offset of the last append (thorough: of every append) is used as a crash point: truncate, reopen, append through a fresh instance, reopen.",
    note="Crash model = a byte prefix of a single O_APPEND write survives; fsync/power-loss reordering is outside the statement. Offsets inside the 70000-byte record are a stated subset.", ref="7 C10"),
